@@ -1042,7 +1042,7 @@ var childFlag = flag.Bool("child", false, "internal: run the harness body (the p
 // engine) kills the process and cannot be recovered in-process; the parent turns it into a violation.
 func supervise() {
 	args := append([]string{"-child"}, os.Args[1:]...)
-	cmd := exec.Command(os.Args[0], args...)
+	cmd := hx.Supervised(exec.Command(os.Args[0], args...))
 	var errb bytes.Buffer
 	cmd.Stdout = os.Stdout
 	cmd.Stderr = io.MultiWriter(os.Stderr, &errb)
